@@ -37,6 +37,7 @@ func TestVerif(t *testing.T) {
 		verifC04Paths(t, r, out)
 	case "C04":
 		verifC04Paths(t, r, out)
+		verifFlipBetweenAnswers(t, r, out)
 	case "C05":
 		verifC05(t, r, out)
 		verifC05Live(t, r, out)
@@ -48,11 +49,13 @@ func TestVerif(t *testing.T) {
 		// a failing transmission is not a stop either: the task ends with the error or is re-dialled
 		verifAdvFail(t, r, out)
 	case "C06":
+		verifMidWrite(t, r, out)
 		verifSched(t, r, out, "sch6")
 		verifAdv(t, r, out, "adv6")
 		verifReinit(t, r, out)
 	case "C07":
 		verifReinitRS(t, r, out)
+		verifMidWrite(t, r, out)
 		verifSched(t, r, out, "sch7")
 		verifAdv(t, r, out, "adv7")
 		verifConcurrentFailures(t, out)
